@@ -156,7 +156,7 @@ def main():
              "kind_free_text": "cargo-fuzz / libFuzzer targets (nightly) whose oracle is the same harness code (pkgsrc_verif::fuzz); run by the thorough tier only: 8 worker processes per target, fixed number of runs, fresh corpus seeded from the harness generators, artifacts confirmed through the stable replay path"},
         ],
         "checks": checks,
-        "notes": "All checks: exit 0 held / 1 violation (VIOLATION line) / 2 inconclusive. VERIF_SEED selects the PRNG seed (default 1). ./check rebuilds the harness against /repo's working tree on every call. Known findings: known_findings.json (KF-1 for C01, KF-2 for C17). Replay files may carry a 'history' (cases that must run first on the same thread) for failures caused by state left behind by earlier calls. Sensitivity: 384 independently seeded changes (ten rounds) under seeded/, re-run with tools/seed_rerun_all.py (seeded/RERUN.json). DESIGN.md section 10 is the authoritative description of what was built.",
+        "notes": "All checks: exit 0 held / 1 violation (VIOLATION line) / 2 inconclusive. VERIF_SEED selects the PRNG seed (default 1). ./check rebuilds the harness against /repo's working tree on every call. Known findings: known_findings.json (KF-1 for C01, KF-2 for C17). Replay files may carry a 'history' (cases that must run first on the same thread) for failures caused by state left behind by earlier calls. Sensitivity: 400 independently seeded changes (eleven rounds) under seeded/, re-run with tools/seed_rerun_all.py (seeded/RERUN.json). DESIGN.md section 10 is the authoritative description of what was built.",
         "not_applicable": na,
     }
     out = os.path.join(HERE, "MANIFEST.json")
